@@ -1,6 +1,11 @@
 """shared driver for the Kani scalar harnesses (C08, C14, C17)"""
 from vf import kani as K
 
+class nf_wrap:
+    """a fixed answer presented as a native client (C01.confirm asks dev and release)"""
+    def __init__(s, ans): s.ans = ans
+    def request(s, req): return s.ans
+
 def run_kani_only(run, names, bounds, outside, assumes, features=(), timeout=None, keyprefix='k'):
     run.bounds = dict(run.bounds or {}, **bounds); run.outside = outside; run.assumes = assumes
     res = K.run_harnesses(run, names, timeout=timeout or (600 if run.tier == 'quick' else 2400), features=features)
@@ -12,6 +17,15 @@ def run_kani_only(run, names, bounds, outside, assumes, features=(), timeout=Non
     for r in res:
         run.sample({'harness': r['harness'], 'verdict': r['verdict'], 'checks': r['n_checks'], 'verification_s': r['verification_s']})
     def confirm(c, nd, nr):
+        if c.get('features') and c['request'].get('op') in ('search', 'compile'):
+            # a difference found on a feature build: the same request on drivers built with and without the feature
+            from vf import native as nat
+            from . import c01 as C01
+            feats = tuple(c['features']); nat.build_driver(('dev',), feats)
+            nf = nat.Native('dev', features=feats); of = nf.request(c['request']); nf.close()
+            bad, obs = C01.confirm(c, nf_wrap(of), nf_wrap(of))
+            obs = {'with ' + '+'.join(feats): of, 'default': nd.request(c['request'])}
+            return bad, obs
         if c['request'].get('op') == 'value_conv':
             obs = {'dev': nd.request(c['request']), 'release': nr.request(c['request'])}
             if all(o.get('kind') == 'skipped' for o in obs.values()): return True, {'note': 'specialised entry point: not reachable in the default-feature replay driver; the model-level counterexample (value, expected, got) is reported', **obs}
